@@ -202,6 +202,12 @@ mod dictionary {
                 // dictionary, where it could not be told from an unused tag.
                 return output.push(bytes);
             }
+            // A literal is told from a dictionary code by its first byte. If that byte is an
+            // assigned code, storing `bytes` literally would read back the dictionary entry.
+            assert!(
+                self.encode.contains_key(bytes) || self.decode.get(bytes[0].into()).is_none(),
+                "cannot encode {bytes:?}: its first byte is a dictionary code of this region"
+            );
             self.total += bytes.len();
             // If we have an index referencing `bytes`, use the index key.
             let index = if let Some(b) = self.encode.get(bytes) {
